@@ -283,7 +283,7 @@ def compare(case, io, mo):
         return f"diff:output grid shape ({len(r['north'])}, {len(r['east'])}) vs model ({len(north)}, {len(east)})"
     sc = max(1.0, max(abs(v) for v in east + north))
     for x, y in list(zip(r["east"], east)) + list(zip(r["north"], north)):
-        if abs(x - y) > 1e-9 * sc:
+        if not (abs(x - y) <= 1e-9 * sc):
             return f"diff:output coordinate {x} vs {y}"
     return "ok"
 
@@ -320,7 +320,7 @@ def oracle(case, io):
     if "region" in kw:
         rw, re_, rs, rn = kw["region"]
         tolr = 1e-9 * max(1.0, *[abs(v) for v in kw["region"]])
-        if abs(r["east"][0] - rw) > tolr or abs(r["east"][-1] - re_) > tolr or abs(r["north"][0] - rs) > tolr or abs(r["north"][-1] - rn) > tolr:
+        if not (abs(r["east"][0] - rw) <= tolr and abs(r["east"][-1] - re_) <= tolr and abs(r["north"][0] - rs) <= tolr and abs(r["north"][-1] - rn) <= tolr):
             return f"projected grid does not span the requested region {kw['region']}"
     for i, y in enumerate(r["north"]):
         for j, x in enumerate(r["east"]):
